@@ -47,7 +47,14 @@ def _dist_moments(dist):
     return None
 
 
+REF_PHASES = None
+
+
 def check_record(rec, nodes, stats, wall_clock=False, own_nonce=None):
+    global REF_PHASES
+    from rexmon.monitors import c16
+
+    REF_PHASES = c16.reference_phases(nodes)
     V = []
 
     def bad(clause, **kw):
@@ -115,7 +122,7 @@ def check_record(rec, nodes, stats, wall_clock=False, own_nonce=None):
                 for k_, t_ in zip(si[valid], trecv[valid]):
                     arr[k_] = max(arr[k_], t_)
         # ---- the law
-        ph = float(node.phase)
+        ph = float(REF_PHASES[n]) if REF_PHASES is not None else float(node.phase)  # longest expected-delay path, recomputed from the configuration
         D = 0.0
         only_blocking = bool(node.advance and all(cc.blocking for cc in node.inputs.values()))
         freq = node.scheduling.name == "FREQUENCY"
@@ -155,7 +162,21 @@ def plan(tier, seed):
 
 
 def run_case(case):
-    return c03.run_case(case, checker=check_record, pid="C04", nontrivial=lambda st: bool(st.get("_multi")), spec_fn=gen_spec)
+    import random
+
+    rnd = random.Random(case["spec_seed"] + 99)
+
+    def between(nodes):
+        # after the first episode (phases have been read), change an expected delay somewhere upstream: the next episode must use the NEW phases
+        if rnd.random() < 0.6:
+            n = rnd.choice(list(nodes.values()))
+            if rnd.random() < 0.5 or not n.inputs:
+                n.set_delay(delay=round(float(n.delay) + rnd.uniform(0.002, 0.02), 4))
+            else:
+                c = rnd.choice(list(n.inputs.values()))
+                c.set_delay(delay=round(float(c.delay) + rnd.uniform(0.002, 0.02), 4))
+
+    return c03.run_case(case, checker=check_record, pid="C04", nontrivial=lambda st: bool(st.get("_multi")), spec_fn=gen_spec, between_episodes=between)
 
 
 def gen_spec(case):
